@@ -1,5 +1,6 @@
 (* C08 — Concurrent renders behave like the same renders run one at a time.
-   Property theorems only; each is closed by [exact] of a lemma from Proofs/SchedProofs.v.
+   Property theorems only; each is closed by [exact] of a lemma from Proofs/SchedProofs.v or
+   Proofs/SchedOwnProofs.v.
 
    What is proved is LOGICAL non-interference for every step function that respects the
    footprint discipline (a render writes only its own state; what it reads of the shared
@@ -7,7 +8,7 @@
    the template lookup behind the engine's RWMutex.  That the Go code's memory accesses really
    have these footprints is not a theorem: it is observed by the Go race detector in the
    correspondence run (gen/c08.py, harness/c08.go). *)
-From PV Require Import Base.Bytes Models.Sched Proofs.SchedProofs.
+From PV Require Import Base.Bytes Models.Sched Proofs.SchedProofs Models.SchedOwn Proofs.SchedOwnProofs.
 
 (* any k, any schedule: render i ends exactly where it ends when it runs alone for as many
    steps as the schedule gave it *)
@@ -251,3 +252,47 @@ Theorem C08_member_shared_caser_refuted :
       Some (Some (mspec (ms_types h) d code)).
 Proof. exact member_shared_caser_refuted. Qed.
 Print Assumptions C08_member_shared_caser_refuted.
+
+(* page data that holds objects SHARED between renders and with the caller (results of
+   pugjs.Convert put into the data of many Render calls; Models/SchedOwn.v): Render copies every
+   object its data leads to before the template runs (convertData), so the conversion only reads
+   the caller's objects and the template's writes go to copies that only this render holds *)
+Theorem C08_shared_objects_detached_reads_only : reads_only (ostep ODetach).
+Proof. exact ostep_reads_only. Qed.
+Print Assumptions C08_shared_objects_detached_reads_only.
+
+(* any number of renders whose data lead to whatever objects of the caller (the same ones or not),
+   any schedule: each render prints what it prints alone on the values its data had at the call -
+   it sees its own writes and nobody else's ([ospec] mentions neither another render nor any
+   history) - and the caller's objects are afterwards what they were *)
+Theorem C08_renders_see_only_their_own_writes :
+  forall (sched : list nat) (h : oheap) (l : list ostate) (i : nat)
+         (refs : list nat) (code : list oop),
+  nth_error l i = Some (new_orender refs code) ->
+  S (length refs + length code) < count i sched ->
+  option_map oresult (nth_error (rs (run (ostep ODetach) sched (mkSys h l))) i) =
+    Some (Some (ospec h refs code))
+  /\ sh (run (ostep ODetach) sched (mkSys h l)) = h.
+Proof. exact own_engine_own_writes. Qed.
+Print Assumptions C08_renders_see_only_their_own_writes.
+
+(* ... and it is the copy that makes it so: with the object handed on as it is (the detach flag
+   lost on some route into the data) the statement is false - a render prints the pushes of the
+   others, and the caller's objects change (already with one render at a time:
+   SchedOwnProofs.own_alias_sequential_is_wrong) *)
+Theorem C08_shared_objects_aliased_refuted :
+  exists (sched : list nat) (h : oheap) (l : list ostate) (i : nat)
+         (refs : list nat) (code : list oop),
+    nth_error l i = Some (new_orender refs code) /\
+    S (length refs + length code) < count i sched /\
+    (option_map oresult (nth_error (rs (run (ostep OAlias) sched (mkSys h l))) i) <>
+       Some (Some (ospec h refs code))
+     \/ sh (run (ostep OAlias) sched (mkSys h l)) <> h).
+Proof. exact own_alias_refuted. Qed.
+Print Assumptions C08_shared_objects_aliased_refuted.
+
+Theorem C08_shared_objects_aliased_changes_callers_objects_refuted :
+  exists (sched : list nat) (h : oheap) (l : list ostate),
+    sh (run (ostep OAlias) sched (mkSys h l)) <> h.
+Proof. exact own_alias_changes_callers_objects. Qed.
+Print Assumptions C08_shared_objects_aliased_changes_callers_objects_refuted.
